@@ -54,7 +54,12 @@ def run(c):
         for img in ("u5", "u0"):
             extra.append({"img": img, "ops": [{"op": "sign", "c": L}, {"op": "sign", "c": "B"}, {"op": "verify", "c": L}, {"op": "verify", "c": "B"}, {"op": "reparse", "c": "-"},
                                                {"op": "verify", "c": L}, {"op": "verify", "c": "B"}, {"op": "sign", "c": "A"}, {"op": "verify", "c": L}, {"op": "verify", "c": "A"}]})
-    scen = [{"sc": i, "img": h["img"], "ops": h["ops"]} for i, h in enumerate(hs + extra)]
+    # signature values that begin with a zero octet (the harness varies the image content until the first signing yields one), RSA moduli of 2048, 2040 and 3072 bits
+    for img in ("u0", "u5"):
+        for cn in (("A", "Z2040") if c.quick else ("A", "Z2040", "A3", "B")):
+            extra.append({"img": img, "lz": True, "ops": [{"op": "sign", "c": cn}, {"op": "verify", "c": cn}, {"op": "reparse", "c": "-"}, {"op": "verify", "c": cn}, {"op": "verify", "c": "At"},
+                                                         {"op": "sign", "c": "B"}, {"op": "verify", "c": cn}, {"op": "verify", "c": "B"}]})
+    scen = [dict({"sc": i, "img": h["img"], "ops": h["ops"]}, **({"lz": True} if h.get("lz") else {})) for i, h in enumerate(hs + extra)]
     env = dict(os.environ, VERIF_FIXTURES=os.path.join(vf.VERIF, "fixtures"))
     res, deaths = c.run_worker("pesign", scen, env=env, timeout=1800)
     events, owner = [], []
